@@ -339,3 +339,99 @@ func derive4Programs() []Program {
 		Harness: map[string][]byte{"zz_verif_harness.go": []byte(derive4Harness)},
 		Desc:    "derive: local catch-all instance takes precedence over the derive package's"}}
 }
+
+// fifth family: []byte fields in a derived Clone, and a derived instance that uses another generic instance
+// generated in the same run whose type parameters are used in another order than they are declared.
+const derive5Types = `package d5
+
+import (
+	"github.com/csgura/fp"
+	"github.com/csgura/fp/clone"
+	"github.com/csgura/fp/eq"
+	"github.com/csgura/fp/hash"
+)
+
+//go:generate gombok
+
+type Blob struct {
+	Data []byte
+	N    []int
+}
+
+// @fp.Derive
+var _ clone.Derives[fp.Clone[Blob]]
+
+// @fp.Derive
+var _ eq.Derives[fp.Eq[Blob]]
+
+// @fp.Derive
+var _ hash.Derives[fp.Hashable[Blob]]
+
+type Rev[A, B any] struct {
+	Y B
+	X A
+}
+
+type UsesRev struct {
+	R Rev[int, string]
+	K int
+}
+
+// @fp.Derive
+var _ eq.Derives[fp.Eq[Rev[any, any]]]
+
+// @fp.Derive
+var _ eq.Derives[fp.Eq[UsesRev]]
+`
+
+const derive5Harness = `package d5
+
+import (
+	zz "scratchmod/zzverif"
+)
+
+func mkBlob(t string) Blob {
+	n := zz.Choice(t+".len", 3)
+	b := Blob{N: zz.SliceInt(t+".n", 1, 1, 0)}
+	if n > 0 {
+		b.Data = make([]byte, n-1, n)
+		for i := range b.Data {
+			b.Data[i] = zz.Byte(t + ".d")
+		}
+	}
+	return b
+}
+
+func VH_c08_bytes_field_clone_eq_hash() {
+	a := mkBlob("a")
+	c := CloneBlob().Clone(a)
+	zz.Assert(zz.DeepEq(a, c) && zz.Disjoint(a, c), "derived Clone[Blob]: a []byte field is copied, not shared")
+	b := mkBlob("b")
+	same := len(a.Data) == len(b.Data) && len(a.N) == len(b.N)
+	if same {
+		for i := range a.Data {
+			same = same && a.Data[i] == b.Data[i]
+		}
+		for i := range a.N {
+			same = same && a.N[i] == b.N[i]
+		}
+	}
+	zz.Assert(EqBlob().Eqv(a, b) == same, "derived Eq[Blob] compares the bytes")
+	h := HashableBlob()
+	if h.Eqv(a, b) {
+		zz.Assert(h.Hash(a) == h.Hash(b), "derived Hashable[Blob]: equal values hash equally")
+	}
+}
+
+func VH_c08_generic_instance_parameter_order() {
+	x := UsesRev{R: Rev[int, string]{Y: zz.Str("x.y", 1), X: zz.Int("x.x")}, K: zz.Int("x.k")}
+	y := UsesRev{R: Rev[int, string]{Y: zz.Str("y.y", 1), X: zz.Int("y.x")}, K: zz.Int("y.k")}
+	zz.Assert(EqUsesRev().Eqv(x, y) == (x.R.Y == y.R.Y && x.R.X == y.R.X && x.K == y.K), "derived Eq[UsesRev] uses the generic instance of Rev with the instances in the right positions")
+}
+`
+
+func derive5Programs() []Program {
+	return []Program{{Pkg: "d5", Files: map[string][]byte{"types.go": []byte(derive5Types)},
+		Harness: map[string][]byte{"zz_verif_harness.go": []byte(derive5Harness)},
+		Desc:    "derive: []byte fields; generic instance with parameters used out of declaration order"}}
+}
